@@ -163,10 +163,10 @@ Qed.
 Notation so := (fun v : chain => csorted v = true).
 
 Lemma vs_value_access c accs : csorted c = true ->
-  vs (let '(c', n) := value_access big_fuel c accs in add_err n ;;; ret c') so.
+  vs (let '(c', n) := value_access (va_need c accs) c accs in add_err n ;;; ret c') so.
 Proof.
-  intro Hc. pose proof (csorted_value_access big_fuel c accs Hc) as H.
-  destruct (value_access big_fuel c accs) as [c' n]. cbn [fst] in H.
+  intro Hc. pose proof (csorted_value_access (va_need c accs) c accs Hc) as H.
+  destruct (value_access (va_need c accs) c accs) as [c' n]. cbn [fst] in H.
   eapply vt_bind; [apply vs_add_err|]. intros _ _. apply vt_ret, H.
 Qed.
 
@@ -188,7 +188,7 @@ Proof.
   intro H. induction ps as [|[text [p|]] r IH]; intros acc unk sec.
   - rewrite interp_go_nil. apply vt_ret. reflexivity.
   - rewrite interp_go_ref. eapply vt_bind; [apply H|]. intros pv _.
-    destruct (to_string big_fuel pv) as [[s0 u0] sc]. apply IH.
+    destruct (to_string (ts_need pv) pv) as [[s0 u0] sc]. apply IH.
   - rewrite interp_go_text. apply IH.
 Qed.
 
@@ -256,7 +256,7 @@ Lemma walk_body_vs ee wk rx rsec rbase rid accs :
 Proof.
   intros Hrb Hee Hwk. unfold walk_body. destruct accs as [|a rest]; [exact Hee|].
   assert (Hdef : vs (v <- ee rx rsec rbase rid ;;
-                     let '(c, n) := value_access big_fuel v (a :: rest) in add_err n ;;; ret c) so).
+                     let '(c, n) := value_access (va_need v (a :: rest)) v (a :: rest) in add_err n ;;; ret c) so).
   { eapply vt_bind; [exact Hee|]. intros v Hv. apply vs_value_access, Hv. }
   destruct rx; try exact Hdef.
   - destruct (array_index a _); [apply Hwk; reflexivity|v_tac].
